@@ -13,7 +13,8 @@ RULE = ("each generated core statement is analysed under all 28 sqlfluff dialect
 
 # the legacy analyzer's own table-level blind spots (mechanism tag -> finding)
 SQLPARSE = {"from.mixed_comma_join_any": "KF-14f", "where.subquery_under_bool": "KF-14f", "having.subquery": "KF-14f",
-            "setop.paren_later_branches": "KF-14f", "setop.paren_first_branch": "KF-14f"}
+            "setop.paren_later_branches": "KF-14f", "setop.paren_first_branch": "KF-14f", "update.set_subquery": "KF-14f",
+            "update.where_subquery": "KF-14f", "select.scalar_subquery": "KF-14f"}
 
 
 def build(tier, rnd):
@@ -44,6 +45,8 @@ def run(tier):
         exp = sqlgen.expected(st)
         for d in analyzers:
             if st.kind == "select_into" and d not in c01.SELECT_INTO_DIALECTS:
+                continue
+            if not common.is_core_for(d, exp["tags"]):
                 continue
             cases.append({"sql": sql, "dialect": d, "want": []})
             meta.append((key, st, exp))
@@ -101,6 +104,12 @@ def run(tier):
                     miss = sorted(set(pref) - set(v))
                     extra = sorted(set(v) - set(pref))
                     kfid = "KF-14e" if f"{d}:{st.kind}" in c02.DIALECT_BLIND_SPOTS else None
+                    if kfid is None:
+                        # this dialect's deviation from the AST's dataflow is a listed mechanism (the others happen to be right, or wrong differently)
+                        m2 = sorted(set(truth_p) - set(v))
+                        u2 = sorted(set(v) - set(truth_p))
+                        k2 = c02.classify(exp["tags"], d, m2, u2, exp)
+                        kfid = k2 if k2 in KF_IDS else None
                     run_.judge({"sql": sql, "dialect": d, "tags": exp["tags"]}, "dialect_disagrees_on_columns",
                                {"dialect": d, "missing_vs_others": miss[:8], "extra_vs_others": extra[:8], "agreeing_dialects": sorted(x for x, y in pviews.items() if y == pref)[:6]}, kf_id=kfid)
         # the legacy analyzer: same table lineage
